@@ -37,7 +37,7 @@ ASSUMPTIONS = [
 
 FAULTS = ["iadd_other_bins", "iadd_other_dim", "iadd_scalar", "iadd_list", "iadd_str", "isub_larger", "isub_none", "imul_negative", "imul_str", "imul_list",
           "imul_hist", "idiv_zero", "idiv_negative", "idiv_str", "idiv_hist", "fill_wrong_shape", "fill_weight_str", "fill_n_wrong_shape",
-          "fill_n_weights_length", "fill_n_weights_str", "dtype_invalid", "dtype_lossy", "merge_bad_amount", "merge_bad_axis", "merge_gap", "index_bad",
+          "fill_n_weights_length", "fill_n_weights_str", "fill_n_growth_bad_weights", "fill_n_infinite", "dtype_invalid", "dtype_lossy", "merge_bad_amount", "merge_bad_axis", "merge_gap", "index_bad",
           "set_frequencies_shape", "set_frequencies_negative", "set_errors2_shape", "set_errors2_negative", "projection_bad", "collection_mismatch",
           "normalize_empty_copy"]
 
@@ -227,6 +227,22 @@ def check_history(case, ctx: Ctx):
             pts = [point([0.3, 0.3, 0.3]), point([0.6, 0.6, 0.6])]
             arr = np.array(pts, dtype=float).reshape(2, d) if d > 1 else np.array(pts, dtype=float)
             attempt(h.fill_n, arr, weights=np.array([1.0, 2.0, 3.0]))
+        elif name == "fill_n_growth_bad_weights":
+            # values that need new bins (adaptive) together with invalid weights, in one call
+            pts = [point([1.7, 1.7, 1.7]), point([-0.6, -0.6, -0.6]), point([0.5, 0.5, 0.5])]
+            arr = np.array(pts, dtype=float).reshape(3, d) if d > 1 else np.array(pts, dtype=float)
+            bad = {"short": np.array([1.0, 2.0]), "long": np.array([1.0, 2.0, 3.0, 4.0]), "str": ["a", "b", "c"], "2d": np.ones((3, 2))}[op[1]]
+            attempt(h.fill_n, arr, weights=bad)
+        elif name == "fill_n_infinite":
+            # a batch with a value that needs new bins and an infinite one
+            vals = [point([-0.6, -0.6, -0.6]), point([0.5, 0.5, 0.5])]
+            arr = np.array(vals, dtype=float).reshape(2, d) if d > 1 else np.array(vals, dtype=float)
+            arr = arr.copy()
+            if d > 1:
+                arr[1, -1] = np.inf if op[1] else -np.inf
+            else:
+                arr[1] = np.inf if op[1] else -np.inf
+            attempt(h.fill_n, arr)
         elif name == "fill_n_weights_str":
             pts = [point([0.3, 0.3, 0.3]), point([0.6, 0.6, 0.6])]
             arr = np.array(pts, dtype=float).reshape(2, d) if d > 1 else np.array(pts, dtype=float)
@@ -234,12 +250,14 @@ def check_history(case, ctx: Ctx):
         elif name == "dtype_invalid":
             attempt(h.set_dtype, op[1])
         elif name == "dtype_lossy":
-            f_ = np.asarray(h.frequencies)
-            if not (np.any(f_ % 1) or np.any(np.asarray(h.errors2) % 1) or np.any(f_ > 120)):
+            f_, e_ = np.asarray(h.frequencies, dtype=float), np.asarray(h.errors2, dtype=float)
+            target = op[1]
+            info = np.iinfo(target)
+            lossy = bool(np.any(f_ % 1) or np.any(e_ % 1) or np.any(f_ > info.max) or np.any(e_ > info.max))
+            if not lossy:
                 continue
-            attempt(h.set_dtype, "int16" if np.any(f_ % 1) or np.any(np.asarray(h.errors2) % 1) or np.any(f_ > 32767) else "int16")
-            if raised is None:
-                is_fault = False
+            attempt(h.set_dtype, target)
+            require(raised is not None, "lossy_dtype_accepted", f"{what}: set_dtype({target}) accepted although contents {f_.ravel().tolist()} / errors2 {e_.ravel().tolist()} do not fit")
         elif name == "merge_bad_amount":
             attempt(lambda: h.merge_bins(op[1], inplace=True))
         elif name == "merge_bad_axis":
@@ -330,10 +348,16 @@ def one_op(draw):
         return [name, draw(st.integers(1, 3))]
     if name == "set_dtype":
         return [name, draw(st.sampled_from(["float64", "float32", "int64"]))]
+    if name == "dtype_lossy":
+        return [name, draw(st.sampled_from(["int16", "int16", "int8", "int32"]))]
     if name == "dtype_invalid":
         return [name, draw(st.sampled_from(["complex64", "U3", "bool", "datetime64[s]", "object"]))]
     if name == "merge_bad_amount":
         return [name, draw(st.sampled_from([1.5, 2.5, "2", None]))]
+    if name == "fill_n_infinite":
+        return [name, draw(st.booleans())]
+    if name == "fill_n_growth_bad_weights":
+        return [name, draw(st.sampled_from(["short", "long", "str", "2d"]))]
     if name == "merge_bad_axis":
         return [name, draw(st.sampled_from([7, -1, "no_such_axis", 1.5]))]
     return [name]
@@ -345,6 +369,15 @@ def histories(draw, tier="quick"):
     spec = draw(hgen.hist_spec(dims=(1, 1, 2, 3), dtypes=["int64", "float64", "int32", "float32"], max_bins=5, adaptive=adaptive, rich_meta=False,
                                gapped=None if not adaptive else False))
     ops = draw(st.lists(one_op(), min_size=2, max_size=14 if tier == "thorough" else 9))
+    if draw(st.integers(0, 3)) == 0:
+        # squared errors far larger than the contents (heavy weights): range checks must look at them too
+        k = draw(st.sampled_from([3, 500, 40000]))
+
+        def scale(x):
+            return [scale(y) for y in x] if isinstance(x, list) else x * k
+
+        spec["err2"] = scale(spec["err2"] if spec["err2"] is not None else spec["freq"])
+        ops.insert(draw(st.integers(0, len(ops))), ["dtype_lossy", draw(st.sampled_from(["int16", "int8", "int32"]))])
     d = len(spec["axes"])
     if d > 1 and not adaptive and draw(st.integers(0, 2)) == 0:
         # a gap on a later axis: an in-place merge over all axes must fail without touching the earlier ones
